@@ -98,10 +98,11 @@ example :
 
 /-- **the candidate names are the ones in require/resolve.go now** (string literals of loadAsFile, loadIndex,
 loadAsDirectory, loadNodeModules re-extracted on every run, in source order): `.js` before `.json`, `index.js` before
-`index.json`, `package.json`, `node_modules` — the constants the candidate-order theorems above are stated with -/
+`index.json`, `package.json` (and the one key read from it, spelled exactly `main`; the `""` is the reset of a
+non-string value), `node_modules` — the constants the candidate-order theorems above are stated with -/
 theorem resolve_literals_match :
     Generated.resolveLiterals =
       [("loadAsFile", [".js", ".json"]), ("loadIndex", ["index.js", "index.json"]),
-       ("loadAsDirectory", ["package.json"]), ("loadNodeModules", ["node_modules", "node_modules", ".."])] := by decide
+       ("loadAsDirectory", ["package.json", "main", ""]), ("loadNodeModules", ["node_modules", "node_modules", ".."])] := by decide
 
 end GN.Props.C02
